@@ -890,3 +890,40 @@ func callReaches(ci ssa.CallInstruction, pred func(name string) bool, depth int)
 	}
 	return false
 }
+
+
+// fnAndHelpers: fn and the same-package functions with a body it calls statically, to the given depth
+// (a block extracted into a helper stays in the scope of a rule written for fn).
+func fnAndHelpers(fn *ssa.Function, depth int) []*ssa.Function {
+	out := []*ssa.Function{fn}
+	seen := map[*ssa.Function]bool{fn: true}
+	var walk func(f *ssa.Function, d int)
+	walk = func(f *ssa.Function, d int) {
+		if d <= 0 {
+			return
+		}
+		for _, b := range f.Blocks {
+			for _, ins := range b.Instrs {
+				ci, ok := ins.(ssa.CallInstruction)
+				if !ok {
+					continue
+				}
+				callee := ci.Common().StaticCallee()
+				if callee == nil {
+					continue
+				}
+				if o := callee.Origin(); o != nil && len(callee.Blocks) == 0 {
+					callee = o
+				}
+				if seen[callee] || len(callee.Blocks) == 0 || fnPkgPath(callee) == "" || fnPkgPath(callee) != fnPkgPath(fn) {
+					continue
+				}
+				seen[callee] = true
+				out = append(out, callee)
+				walk(callee, d-1)
+			}
+		}
+	}
+	walk(fn, depth)
+	return out
+}
